@@ -35,6 +35,44 @@ def run_shard(args):
     return json.loads(line[-1])
 
 
+def run_life(args):
+    src, seed, shard, njobs = args
+    rc, out = core.run_impl("vt.harness.c12_impl", ["lifetimes", str(seed), str(shard), str(njobs)], src=src, timeout=3000)
+    line = [ln for ln in out.splitlines() if ln.startswith("{")]
+    if rc != 0 or not line:
+        raise RuntimeError("c12 lifetimes shard %d failed rc=%s: %s" % (shard, rc, out[-1500:]))
+    return json.loads(line[-1])
+
+
+def show_ops(ops, limit=14):
+    out = []
+    for o in ops:
+        if o[0] == "load":
+            out.append("load#%d %s(%s)" % (o[1], o[2], o[3]))
+        elif o[0] == "drop":
+            out.append("drop#%d+gc" % o[1])
+        else:
+            out.append("#%d.%s(%r, %d)" % (o[1], "get_fqname" if o[2] == "fq" else "splitname", o[3], o[4]))
+    if len(out) > limit:
+        out = out[:4] + ["... %d more ..." % (len(out) - limit + 2)] + out[-(limit - 6):]
+    return "; ".join(out)
+
+
+def minimise_life(src, h):
+    """shorter lifetime history (jobs load siteinfo -> handler -> lookups -> drop) that still ends in a wrong answer; every
+    candidate runs as a history of its own in a fresh process"""
+    out = dict(h)
+    try:
+        rc, txt = core.run_impl("vt.harness.c12_impl", ["minimise"], src=src, input=json.dumps({"ops": h["ops"]}), timeout=900)
+        m = json.loads([ln for ln in txt.splitlines() if ln.startswith("{")][-1])
+        if m.get("reproduced") and m.get("problems"):
+            out.update(ops=m["ops"], lang=m["lang"], dns=m["dns"], title=m["title"], api=m["api"], kind=m["problems"][0][0],
+                       detail=m["problems"][0][1])
+    except Exception:  # noqa: BLE001   (the unminimised hit is still a hit)
+        pass
+    return out
+
+
 def minimise_hit(src, h):
     """ask the harness (fresh process, forked children per candidate) for the smallest failing history + title"""
     obj = {"lang": h["lang"], "dns": h["dns"], "title": h["title"], "expect": h.get("expect"), "history": h["history"], "inst": h["inst"],
@@ -95,7 +133,12 @@ def check(run):
                 "'foreign' groups ask one name of 2-3 sites in a row.  The monitor judges every answer against the canonical form "
                 "computed from the site's OWN siteinfo JSON (vt/harness/c12_ref.py; None = outside the grammar, not judged), plus "
                 "shape, idempotence and invariance under folding runs / stripping the surroundings.  Hits are minimised on the real "
-                "code (smallest handler history in forked children, then greedy title shrinking).  distinct = distinct (site, "
+                "code (smallest handler history in forked children, then greedy title shrinking).  OBJECT LIFETIMES: each of the 8 (16) "
+                "further processes runs 400 (6000) jobs 'load the siteinfo of a site afresh (json.load of its file / json.loads / deep "
+                "copy) -> NsHandler -> 1-4 lookups with a namespace name of this or of another site -> drop everything -> gc.collect()', "
+                "up to 3 jobs overlapping, sites changing from job to job (address space randomisation off, fixed hash seed, so "
+                "a history is replayable); every answer is judged against the site's own table; a wrong answer is minimised by "
+                "delta debugging over whole jobs, each candidate history in a fresh process.  distinct = distinct (site, "
                 "default namespace, title); non-trivial = the title has a decoration, a separator or a non-ASCII character")
     run.trusted = [
         "Coq 8.16.1 kernel (coqc); vm_compute for the finite table/site obligations",
@@ -110,6 +153,9 @@ def check(run):
         "idempotence of a main-namespace name is stated under default namespace 0 (an unprefixed name is by definition read in "
         "the default namespace); names of every other namespace are fixed points under every default namespace",
         "case variants of a namespace name are per-letter one-to-one case changes (x, x.upper(), x.lower() when one character)",
+        "the model's splitname takes the site as a VALUE; that the answer of a real handler depends only on the value of its siteinfo (not "
+        "on object identity, addresses, or objects of other sites that lived before in the process) is not a Coq statement: it is what the "
+        "handler-history and object-lifetime runs check on the real code",
     ]
     src = core.snapshot(need_ext=False)
     info = {}
@@ -123,8 +169,11 @@ def check(run):
     ngroups = 300 if quick else 12000
     corpus = corpus_file()
     jobs = [(src, run.seed, i, ngroups, exe, corpus) for i in range(nshards)]
+    njobs = 400 if quick else 6000
     with concurrent.futures.ThreadPoolExecutor(max_workers=nshards) as ex:
+        life_f = [ex.submit(run_life, (src, run.seed, i, njobs)) for i in range(nshards)]
         results = list(ex.map(run_shard, jobs))
+        life = [f.result() for f in life_f]
     dis = []
     tie_cases = 0
     dist = {}
@@ -166,7 +215,33 @@ def check(run):
                         "history": m["history"], "inst": m["inst"], "api": m["api"], "calls": m["calls"], "title_codepoints": [ord(c) for c in m["title"]],
                         "found_as": {"title": h["title"], "dns": h["dns"], "handlers_in_process": len(h["history"]),
                                      "group": h["group"]}})
-    dist["raw_monitor_hits"] = len(raw_hits)
+    # ---- object lifetimes: handlers on freshly loaded siteinfo objects that are dropped and re-created across sites
+    life_hits = []
+    lstats = {"processes": len(life), "jobs": 0, "loads": 0, "lookups": 0, "drops_with_gc": 0, "judged_by_site_reference": 0, "wrong_answers": 0}
+    for r in life:
+        lstats["jobs"] += r["jobs"]
+        lstats["loads"] += r["stats"]["loads"]
+        lstats["lookups"] += r["stats"]["uses"]
+        lstats["drops_with_gc"] += r["stats"]["drops"]
+        lstats["judged_by_site_reference"] += r["stats"]["judged_by_site_reference"]
+        lstats["wrong_answers"] += r["problems"]
+        run.evaluations += r["stats"]["uses"]
+        for d in r["digests"]:
+            run.nontrivial.add(bytes.fromhex(d))
+        life_hits.extend(r["hits"])
+    life_hits.sort(key=lambda h: h["op_index"])
+    for h in life_hits[:1]:
+        m = minimise_life(src, h)
+        loads = [o for o in m["ops"] if o[0] == "load"]
+        run.hit(fingerprint="lifetime:%s:%s:%d:%s:after:%s" % (m["kind"], m["lang"], m["dns"], m["title"], ",".join(o[2] for o in loads)),
+                what="%s: site %s: %s   [object lifetimes in this process, in order (%d jobs): %s]"
+                     % (m["kind"], m["lang"], m["detail"], len(loads), show_ops(m["ops"])),
+                replay={"ops": m["ops"], "lang": m["lang"], "dns": m["dns"], "title": m["title"], "api": m["api"],
+                        "found_as": {"ops": len(h["ops"]), "first_wrong_answer_at_op": h["op_index"]}})
+    run.obligation("lifetime histories: every answer of a handler on a freshly loaded siteinfo agrees with the site's own table",
+                   lstats["wrong_answers"] == 0, "%d wrong answers in %d lookups" % (lstats["wrong_answers"], lstats["lookups"]))
+    run.coverage["lifetime_histories"] = lstats
+    dist["raw_monitor_hits"] = len(raw_hits) + lstats["wrong_answers"]
     run.coverage["handler_creation_orders"] = orders
     run.tie("splitname: extracted model vs NsHandler.splitname (ns, remainder, full name / KeyError)", tie_cases, dis)
     if "gen" in info:
